@@ -75,7 +75,26 @@ pub fn dump_via<F: FnMut(&Argv) -> RespValue>(mut exec: F) -> Keyspace {
                         .join(",")
                 )
             }
-            "zset" => show(&exec(&argv_b(&[b"ZRANGE", &k, b"0", b"-1", b"WITHSCORES"]))),
+            "zset" => {
+                // canonical: member@score with the score re-rendered from its parsed value
+                let r = exec(&argv_b(&[b"ZRANGE", &k, b"0", b"-1", b"WITHSCORES"]));
+                match bulk_items(&r) {
+                    Some(flat) if flat.len() % 2 == 0 => format!(
+                        "[{}]",
+                        flat.chunks(2)
+                            .map(|c| {
+                                let sc = match crate::model::string2d(&c[1]) {
+                                    Some(f) => crate::model::fmt_score(f),
+                                    None => format!("?{}", esc(&c[1])),
+                                };
+                                format!("{}@{}", esc(&c[0]), sc)
+                            })
+                            .collect::<Vec<_>>()
+                            .join(",")
+                    ),
+                    _ => show(&r),
+                }
+            }
             _ => "?".to_string(),
         };
         let pttl = match exec(&argv_b(&[b"PTTL", &k])) {
